@@ -112,8 +112,13 @@ func (hl *headersList) getSorted() []header {
 // removeRange removes headers from "from" to "to"
 func (hl *headersList) removeRange(from, to uint64) {
 	hl.Lock()
+	hl.removeRangeLocked(from, to)
+	hl.Unlock()
+}
+
+// removeRangeLocked removes headers from "from" to "to"; the caller holds the lock
+func (hl *headersList) removeRangeLocked(from, to uint64) {
 	for i := from; i <= to; i++ {
 		delete(hl.headers, i)
 	}
-	hl.Unlock()
 }
